@@ -96,6 +96,17 @@ def integrate (f : Rat → Rat) (a b eps : Rat) (depth : Int) : Res :=
     let r := adaptive f lo hi (rabs eps) S fa fb fc depth.toNat
     { val := sign * r.val, evals := lo :: hi :: c :: r.evals, warn := r.warn, panels := r.panels }
 
+/-- `Find_Epsilon(func, a, b, precision)`: `precision * S` with `S` Simpson's rule on `[a,b]`; evaluates the
+    integrand at `a`, `b`, `(a+b)/2` and keeps nothing. -/
+def findEpsilon (f : Rat → Rat) (a b precision : Rat) : Rat × List Rat :=
+  let c := (a + b) / 2
+  let h := b - a
+  (precision * ((h / K.coarseDiv) * (f a + K.coarseMidW * f c + f b)), [a, b, c])
+
+/-- a two-call history: `Find_Epsilon(g, a', b', precision)` and then `Integrate(f, a, b, eps, depth)` -/
+def findEpsilonThenIntegrate (g f : Rat → Rat) (a' b' precision a b eps : Rat) (depth : Int) : (Rat × List Rat) × Res :=
+  (findEpsilon g a' b' precision, integrate f a b eps depth)
+
 /-! ### integrands the driver can evaluate (both sides evaluate the same description) -/
 
 def polyEval (cs : List Rat) (x : Rat) : Rat := cs.foldr (fun c acc => c + x * acc) 0
